@@ -16,7 +16,11 @@ pub fn cfg_for(driver: &str, tier: &str) -> Option<(Cfg, u32)> {
         // C01: slot reuse, stale tokens, callbacks that remove/disable/replace mid-dispatch
         "reuse" => {
             let mut c = Cfg::base("reuse");
-            c.insertable = vec![KindSpec::Ping, KindSpec::Chan, KindSpec::Timer(-1), FD_RL];
+            c.insertable = if q {
+                vec![KindSpec::Ping, KindSpec::Chan, KindSpec::Timer(-1), FD_RL]
+            } else {
+                vec![KindSpec::Ping, KindSpec::Chan, KindSpec::Timer(-1), FD_RL, KindSpec::Exec, KindSpec::Stream, KindSpec::SyncChan(1)]
+            };
             c.max_actors = if q { 3 } else { 4 };
             c.depth = if q { 5 } else { 6 };
             c.top_stale = true;
@@ -68,7 +72,11 @@ pub fn cfg_for(driver: &str, tier: &str) -> Option<(Cfg, u32)> {
         // C06: every removal path, slot reuse, every token ever issued used again
         "removal" => {
             let mut c = Cfg::base("removal");
-            c.insertable = vec![KindSpec::Ping, KindSpec::Chan, KindSpec::Timer(-1), FD_RL];
+            c.insertable = if q {
+                vec![KindSpec::Ping, KindSpec::Chan, KindSpec::Timer(-1), FD_RL, KindSpec::Stream, KindSpec::Async]
+            } else {
+                vec![KindSpec::Ping, KindSpec::Chan, KindSpec::Timer(-1), FD_RL, KindSpec::Stream, KindSpec::Async, KindSpec::Exec, KindSpec::SyncChan(1)]
+            };
             c.max_actors = if q { 3 } else { 4 };
             c.depth = if q { 5 } else { 6 };
             c.top_stale = true;
@@ -95,6 +103,8 @@ pub fn cfg_for(driver: &str, tier: &str) -> Option<(Cfg, u32)> {
                 vec![FD_RE, KindSpec::Ping],
                 vec![FD_RO, KindSpec::Timer(-1)],
                 vec![KindSpec::Timer(-1), KindSpec::Timer(1), KindSpec::Ping],
+                vec![KindSpec::Exec, KindSpec::Ping],
+                vec![KindSpec::Stream, KindSpec::SyncChan(1)],
             ];
             c.max_actors = 3;
             c.depth = if q { 5 } else { 7 };
